@@ -466,6 +466,67 @@ def run_repr(case):
     return out
 
 
+# ------------------------------------------------------------------ object reuse / call history (round 3)
+
+def reuse_jobs(bct, thr, p):
+    return {'threshold_absolute': lambda A, **k: bct.threshold_absolute(A, thr, **k),
+            'threshold_proportional': lambda A, **k: bct.threshold_proportional(A, p, **k),
+            'binarize': lambda A, **k: bct.binarize(A, **k), 'normalize': lambda A, **k: bct.normalize(A, **k),
+            'invert': lambda A, **k: bct.invert(A, **k),
+            'weight_conversion/binarize': lambda A, **k: bct.weight_conversion(A, 'binarize', **k),
+            'weight_conversion/normalize': lambda A, **k: bct.weight_conversion(A, 'normalize', **k),
+            'weight_conversion/lengths': lambda A, **k: bct.weight_conversion(A, 'lengths', **k)}
+
+
+def run_reuse(case):
+    """case: n, W (rat strings), sym, target, mode, copykw, seed.  common.reuse_probe under copy=True / default:
+    mode 'edit-argument': W is changed in place between two calls on the same array object;
+    mode 'edit-result': the array returned by the first call is overwritten in place, then the original argument is passed again;
+    mode 'other-routine-between': another utility runs on the same object between the two calls.
+    The second call must equal the call on fresh copies (a function of the argument's values, not of its history)."""
+    bct = import_bct()
+    rs = np.random.RandomState(case['seed'])
+    n = case['n']; A = to_float_mat(case['W'], n)
+    out = {'viol': [], 'lean': [], 'evals': 3, 'keys': [], 'dist': {}, 'sample': None}
+    jobs = reuse_jobs(bct, case['thr'], case['p'])
+    f = jobs[case['target']]; kw = dict(case['copykw'])
+    held = {}
+
+    def fn(M):
+        if case['mode'] == 'other-routine-between' and held.get('n', 0) >= 1:
+            jobs[case['other']](M, **kw)
+        R = f(M, **kw)
+        held['R'] = R; held['n'] = held.get('n', 0) + 1
+        return R
+
+    def mutate(args):
+        M = args[0]
+        if case['mode'] == 'edit-result':
+            held['R'][...] = 7.5                      # the caller scribbles over what the first call returned
+            return
+        for e in range(2):
+            i, j = (int(x) for x in rs.choice(n, 2, replace=False))
+            w = float(rs.randint(0, 9)) / 4 * (1.0 if case['target'] == 'threshold_proportional' or rs.rand() < .6 else -1.0)
+            if e == 0:
+                w = float(np.abs(M).max()) * 2 + 0.25      # one edit always raises the largest magnitude (scale, order and support change)
+            M[i, j] = w
+            if case['sym']:
+                M[j, i] = w
+    before = A.copy()
+    d = reuse_probe(fn, [A], mutate, t=5)
+    key = 'reuse_probe:' + case['target'].split('/')[0]
+    out['dist'][key] = 1
+    fname = case['target'].split('/')[0]
+    det = {'kind': 'reuse', 'n': n, 'W': ','.join(case['W']), 'target': case['target'], 'mode': case['mode'], 'other': case.get('other'),
+           'copykw': case['copykw'], 'thr': case['thr'], 'p': case['p'], 'sym': case['sym'], 'seed': case['seed'], 'argument_at_second_call': frs_str(fmat(A))}
+    if d is not None:
+        out['viol'].append((fname, 'result-depends-on-history', dict(det, probe=d), {'mode': case['mode']}))
+    if case['mode'] == 'edit-result' and not same_bits(A, before):
+        out['viol'].append((fname, 'copy-true-argument-untouched', det, {'copy': True}))
+    out['keys'].append(digest(['reuse', case['target'], case['mode'], case['W'], case['seed']]))
+    return out
+
+
 # ------------------------------------------------------------------ teachers_round
 
 def run_round(xs):
@@ -687,7 +748,7 @@ def main():
     if ck.tier == 'thorough' and ok:
         ck.leanchecker(['BctVerif.Props.C17', MODEL])
     rs = ck.rs
-    tp_cases, par_cases, el_cases, rd_cases, rp_cases = [], [], [], [], []
+    tp_cases, par_cases, el_cases, rd_cases, rp_cases, ru_cases = [], [], [], [], [], []
     if ck.replay:
         rp = json.load(open(ck.replay)); c = rp['case']
         if c.get('kind') == 'tp':
@@ -699,6 +760,10 @@ def main():
             el_cases.append({'n': c['n'], 'W': c['W'].split(','), 'thrs': [c['thr']] if 'thr' in c else thr_values(F, rs), 'bad_wcm': ['invert']})
         elif c.get('kind') == 'round':
             rd_cases.append([c['x']])
+        elif c.get('kind') == 'reuse':
+            for sd in [c['seed']] + list(range(20)):
+                ru_cases.append({'n': c['n'], 'W': c['W'].split(','), 'sym': c['sym'], 'target': c['target'], 'mode': c['mode'], 'other': c.get('other'),
+                                 'copykw': c['copykw'], 'thr': c['thr'], 'p': c['p'], 'seed': sd})
         elif c.get('kind') == 'repr':
             rp_cases.append({'n': c['n'], 'W': c['W'].split(','), 'dtypes': [c['dtype']], 'thrs': c['thrs'], 'ps': c['ps']})
     else:
@@ -722,11 +787,28 @@ def main():
                     el_cases.append({'n': 2, 'W': [dy(x) for x in W2], 'thrs': thr_values(W2, rs), 'bad_wcm': ['invert']})
         rd_cases = chunks(round_inputs(rs, quick), 50)
         rp_cases = gen_repr_cases(rs, quick)
+        # round 3: object-reuse probes, every utility x {edit the argument, edit the returned array, another utility in between}
+        targets = ['threshold_absolute', 'threshold_proportional', 'binarize', 'normalize', 'invert',
+                   'weight_conversion/binarize', 'weight_conversion/normalize', 'weight_conversion/lengths']
+        modes = ['edit-argument', 'edit-result', 'other-routine-between']
+        for q in range(72 if quick else 600):
+            n = int(rs.randint(2, 7)); sym = bool(rs.rand() < .5)
+            M = [[Fr(int(rs.randint(0, 9)), 4) for _ in range(n)] for _ in range(n)]
+            if sym:
+                for i in range(n):
+                    for j in range(i):
+                        M[i][j] = M[j][i]
+            tg = targets[q % len(targets)]
+            ru_cases.append({'n': n, 'W': [dy(M[i][j]) for i in range(n) for j in range(n)], 'sym': sym, 'target': tg,
+                             'mode': modes[(q // len(targets)) % 3], 'other': targets[int(rs.randint(len(targets)))],
+                             'copykw': {} if q % 2 else {'copy': True}, 'thr': float(rs.randint(1, 8)) / 4, 'p': float(rs.randint(1, 64)) / 64,
+                             'seed': int(rs.randint(2 ** 31))})
     ck.count('tp_matrix_chunks', len(tp_cases)); ck.count('elementwise_matrices', len(el_cases)); ck.count('round_chunks', len(rd_cases))
     for c in tp_cases:
         ck.count('tp_kind:' + c['kind'].split('/')[0]); ck.count('n=%d' % c['n'])
     results = []
-    for fn, cs in ((run_tp, tp_cases), (run_tp_param, par_cases), (run_el, el_cases), (run_round, rd_cases), (run_repr, rp_cases)):
+    for fn, cs in ((run_tp, tp_cases), (run_tp_param, par_cases), (run_el, el_cases), (run_round, rd_cases), (run_repr, rp_cases), (run_reuse, ru_cases)):
+        cs = [cs[i] for i in rs.permutation(len(cs))]        # workers interleave matrices, sizes and options
         results += pmap(fn, cs)
     items = []
     for r in results:
